@@ -44,17 +44,20 @@ def check_curve(ctx, tag, Ts, Hs, pts):
     ctx.require(h.conj(conds), f"{tag}: every emitted point lies on the table curve to display rounding")
     # 2. linear interpolation through the emitted points recovers every table row of the non-flat extent;
     #    rows outside the emitted range belong to the flat ends (same enthalpy as the nearest emitted end)
-    conds = []
+    conds, loose = [], []
     for k in range(n):
         xi = interp_points(pts, Ts[k]) if pts else None
         if xi is not None:
             conds.append(h.close(xi, Hs[k], DISP + 1e-6))
+            loose.append(h.close(xi, Hs[k], 4 * DISP))
         elif pts:
             end = pts[0][0] if Ts[k] > pts[0][1] else pts[-1][0]
             conds.append(h.close(end, Hs[k], DISP + 1e-6))
+            loose.append(h.close(end, Hs[k], 4 * DISP))
         else:
             conds.append(h.close(Hs[k], Hs[0], 1e-6 + 1e-9))     # nothing emitted: the curve is flat
-    ctx.require(h.conj(conds), f"{tag}: the emitted points reproduce every table row of the non-flat extent (interpolation within 0.01)")
+            loose.append(h.close(Hs[k], Hs[0], 4 * DISP))
+    ctx.require(h.conj(conds), f"{tag}: the emitted points reproduce every table row of the non-flat extent (interpolation within 0.01)", robust=h.conj(loose))
     # 3. first and last emitted points are the first and last non-flat points: no non-flat part is trimmed away
     if pts:
         ctx.require(h.conj([pts[k][1] > pts[k + 1][1] - 1e-9 for k in range(len(pts) - 1)]), f"{tag}: emitted points keep the table order")
